@@ -103,8 +103,10 @@ def main():
         if not okh:
             print("ERROR: harness does not build against /repo:\n" + hmsg)
             return 2
-        if tier == "thorough" and prop.get("release_too"):
-            C.build_harness(release=True)
+        if any(getattr(S.STREAMS[x], "release_too", False) for x in prop["streams"]):
+            okr, _, rmsg = C.build_harness(release=True)
+            if not okr:
+                problems.append({"kind": "tie", "what": "release harness build failed: " + rmsg[-300:]})
         ev["coverage"]["hooks_enabled"] = hooks
     # ---- streams
     known = load_known()
